@@ -89,7 +89,7 @@ def shrink_phase(rep, exe_impl, exe_model):
     # in turn (close of the new version included)
     fcases = wk.enumerate_cases(exe_impl, rep.tier, "fault", rep.seed, only=["drain_one", "drain_history_offset", "drain_collision"])
     if not f:
-        f2, v2 = wk.run_cases(rep, exe_impl, exe_model, fcases, ["no_partial", "fault_reported"], what="abandoned copy")   # (empty directories after a failing mkdir are not C05's business: it speaks of the SOURCE's conditions)
+        f2, v2 = wk.run_cases(rep, exe_impl, exe_model, fcases, ["no_partial", "fault_reported", "completed_exact"], what="abandoned copy")   # (empty directories after a failing mkdir are not C05's business: it speaks of the SOURCE's conditions)
         f, v = f or f2, v + v2
     # another process appends to a history file while its slice is copied (implementation only): see check_C08.grow_phase
     ng = 0
